@@ -504,6 +504,53 @@ type workerResult struct {
 	sc       *scratch
 }
 
+// runWorkerIsolated: one worker process per simulated run (World C fallback for a
+// tree whose goroutines or channels live longer than one synctest bubble: the
+// second bubble of a process would die of "... from outside bubble"). State that
+// a process accumulates over many runs is not explored in this mode.
+func runWorkerIsolated(sc *scratch, prop, tier, variant string, idx int, seed uint64, budget float64, shrink string) workerResult {
+	agg := workerResult{idx: idx, variant: variant, stats: &workerStats{Counters: map[string]uint64{}}}
+	deadline := time.Now().Add(time.Duration(budget * float64(time.Second)))
+	hs := map[uint64]struct{}{}
+	for it := uint64(0); time.Now().Before(deadline); it++ {
+		r := runWorker(sc, prop, tier, variant, idx, h64("isolated", seed, it)|1, 0.001, shrink, []string{"VERIF_MAX_RUNS=1", "VERIF_CHECKS=1", "VERIF_ISOLATED=1"})
+		agg.failPath, agg.logPath = r.failPath, r.logPath
+		if r.stats != nil {
+			agg.stats.Runs += r.stats.Runs
+			agg.stats.NonTrivial += r.stats.NonTrivial
+			agg.stats.SimTimeNs += r.stats.SimTimeNs
+			for k, v := range r.stats.Counters {
+				agg.stats.Counters[k] += v
+			}
+			if len(agg.stats.Samples) < 2 {
+				agg.stats.Samples = append(agg.stats.Samples, r.stats.Samples...)
+			}
+			if len(agg.stats.Seeds) < 8 {
+				agg.stats.Seeds = append(agg.stats.Seeds, r.stats.Seeds...)
+			}
+			if r.stats.HarnessErr != "" && agg.stats.HarnessErr == "" {
+				agg.stats.HarnessErr = r.stats.HarnessErr
+			}
+		}
+		for _, h := range r.hashes {
+			hs[h] = struct{}{}
+		}
+		if r.fail != nil {
+			agg.fail = r.fail
+			break
+		}
+		if r.timedOut || (r.stats == nil && r.exitErr != nil) {
+			agg.timedOut, agg.exitErr = r.timedOut, r.exitErr
+			agg.stats = nil
+			break
+		}
+	}
+	for h := range hs {
+		agg.hashes = append(agg.hashes, h)
+	}
+	return agg
+}
+
 func runWorker(sc *scratch, prop, tier, variant string, idx int, seed uint64, budget float64, shrink string, extraEnv []string) workerResult {
 	res := workerResult{idx: idx, variant: variant}
 	bin := sc.bins[variant]
@@ -809,6 +856,30 @@ func cmdCheck(args []string) int {
 		}(i, j)
 	}
 	wg.Wait()
+
+	// World C: a goroutine or channel of the code under test that lives longer than
+	// one synctest bubble kills the second run of every worker process. Fall back
+	// to one process per simulated run.
+	isolated := false
+	if pi.World == "C" {
+		for _, r := range results {
+			if r.stats == nil && strings.Contains(readTail(r.logPath, 1<<30), "from outside bubble") {
+				isolated = true
+			}
+		}
+	}
+	if isolated {
+		fmt.Println("note: the code under test keeps goroutines / channels alive across simulated runs (synctest: \"... from outside bubble\"); falling back to one worker process per run - process-lifetime state is not explored in this mode")
+		for i, j := range jobs {
+			wg.Add(1)
+			go func(i int, j wjob) {
+				defer wg.Done()
+				results[i] = runWorkerIsolated(j.sc, prop, tier, j.variant, j.idx, h64("seed", seed, prop, j.idx)|1, tc.Budget, tc.Shrink)
+				results[i].sc = j.sc
+			}(i, j)
+		}
+		wg.Wait()
+	}
 
 	// aggregate
 	agg := workerStats{Counters: map[string]uint64{}}
